@@ -92,6 +92,21 @@ CLAIMED = {
             'Conversions that fail themselves are inconclusive. Several plan/convert mismatches for item-renaming and '
             'item-duplicating pipelines exist on the unchanged tree and are listed in known_findings.jsonl by signature; '
             'a different violation is still reported. A build following the plan is not compiled.'),
+    'C25': ('batchworld/history', 'DESIGN.md sec. 5 (C25)',
+            'deterministic simulation (history class): seeded sequences of item-renaming / creating / removing '
+            'Scheduler.process steps on one real Scheduler under simulator-chosen enumeration and topological orders; '
+            'invariants over item_cache, graph, config and IR after every step, strict rediscovery of the written sources',
+            'Seeded exploration of step histories (Idem, ModuleWrap, Dependency, DuplicateKernel with/without subgraph, '
+            'RemoveKernel; documented orders only) on generated projects. After every step: cache keys = item names; '
+            'every graph item resolves to IR of its name, no two items share a routine; graph membership and '
+            'scheduler[name] agree with iteration; every call of a processed routine names a graph item it has an edge '
+            'to (or an excluded name); a later no-op transformation visits exactly the graph\'s procedure items. After a '
+            'final FileWrite a fresh strict Scheduler over written files + untouched originals resolves everything. '
+            'Sampling, not proof.',
+            'Most of the search budget goes to the layout the transformations are written for (one kernel per module, '
+            'one unit per file, qualified imports); violations on other layouts exist on the unchanged tree and are '
+            'listed in known_findings.jsonl by feature signature. "Compile and link" is approximated by Loki\'s own '
+            'strict resolution, no compiler is run.'),
 }
 
 NA_COMMON = ('pure function of (source text / IR, options, valuations): no scheduler, clock, fault, shared state '
